@@ -137,19 +137,32 @@ def make_inputs(task, variant, rng, d):
             info["precompressed"] = True
         info["inputs"] = [str(p)]
         info["outputs"] = [str(d / "out.rtdc")]
+        if variant in (1, 2):
+            # names without the .rtdc suffix (check_suffix=False): the output is requested
+            # under the very name of the input; the task writes <name>.rtdc next to it
+            q = d / "measurement"
+            p.rename(q)
+            info["inputs"] = [str(q)]
+            info["requested_out"] = str(q)
+            info["outputs"] = [str(q) + ".rtdc"]
+            info["no_suffix"] = True
     return info
 
 
 def task_callable(task, info, variant):
     def run():
         import dclab.cli as cli
+        kw = {}
+        out = info["outputs"][0]
+        if info.get("no_suffix"):
+            kw, out = {"check_suffix": False}, info["requested_out"]
         if task == "compress":
-            cli.compress(path_in=info["inputs"][0], path_out=info["outputs"][0])
+            cli.compress(path_in=info["inputs"][0], path_out=out, **kw)
         elif task == "repack":
-            cli.repack(path_in=info["inputs"][0], path_out=info["outputs"][0],
-                       strip_logs=bool(variant % 2))
+            cli.repack(path_in=info["inputs"][0], path_out=out,
+                       strip_logs=bool(variant % 2), **kw)
         elif task == "condense":
-            cli.condense(path_in=info["inputs"][0], path_out=info["outputs"][0])
+            cli.condense(path_in=info["inputs"][0], path_out=out, **kw)
         elif task == "join":
             cli.join(paths_in=list(info["inputs"]), path_out=info["outputs"][0])
         elif task == "split":
